@@ -238,7 +238,7 @@ pub struct StoredCase {
 
 pub fn stored_strategy() -> BoxedStrategy<StoredCase> {
     (
-        0u8..2,
+        0u8..3,
         proptest::collection::vec(any::<u8>(), 1..24),
         proptest::collection::vec((0u8..2, proptest::collection::vec(super::common::intent_strategy(3), 1..4)), 1..5),
         any::<bool>(),
@@ -416,6 +416,73 @@ pub fn check_stored(c: &StoredCase) -> CheckResult {
                 }
             }
         }
+        2 => {
+            rep.class("http");
+            use crate::engine::httpsrv::{Blocking, HttpServer, Tamper, HS_CT, SNAP_CT};
+            let http = HttpServer::start().map_err(|e| Failure::new("infra", format!("http server: {e}")))?;
+            let client_id = Uuid::from_u128(0x1d_c13);
+            if c.snapshot {
+                http.state.lock().unwrap().urgency = 2;
+            }
+            let mk = || -> Result<Box<dyn Server>, Failure> {
+                Ok(Box::new(
+                    Blocking::new(ServerConfig::Remote {
+                        url: http.url.clone(),
+                        client_id,
+                        encryption_secret: c.secret.clone(),
+                    })
+                    .map_err(|e| Failure::new("backend-open", format!("{e}")))?,
+                ))
+            };
+            let mut servers = [mk()?, mk()?];
+            drive(&mut servers, &c.commits, None)?;
+            // http.md: the salt is the 16-byte client id
+            let key = doc_derive_key(&c.secret, client_id.as_bytes());
+            let recorded = http.state.lock().unwrap().recorded.clone();
+            for r in &recorded {
+                crate::ensure!(!contains(&r.body, marker), "plaintext-stored", "an HTTP {} request body contains task content in the clear", r.kind);
+                match r.kind {
+                    "add-version" => {
+                        crate::ensure!(r.content_type == HS_CT, "http-protocol", "add-version content type {:?}", r.content_type);
+                        // versions are bound to the PARENT version id
+                        let plain = doc_open(&key, r.id_in_url.as_bytes(), &r.body).map_err(|e| {
+                            Failure::new("stored-not-documented-form", format!("an add-version body is not the documented sealed form (salt = client id, bound to the parent version id): {e}"))
+                        })?;
+                        parse_version(&plain).map_err(|e| Failure::new("stored-version-unreadable", e))?;
+                        versions_checked += 1;
+                    }
+                    _ => {
+                        crate::ensure!(r.content_type == SNAP_CT, "http-protocol", "add-snapshot content type {:?}", r.content_type);
+                        doc_open(&key, r.id_in_url.as_bytes(), &r.body).map_err(|e| {
+                            Failure::new("stored-not-documented-form", format!("an add-snapshot body is not the documented sealed form bound to its version id: {e}"))
+                        })?;
+                        rep.class("snapshot-object-checked");
+                    }
+                }
+            }
+            let errs = http.state.lock().unwrap().protocol_errors.clone();
+            crate::ensure!(errs.is_empty(), "http-protocol", "the client violated http.md: {errs:?}");
+            // tampered replies must be rejected
+            let nver = http.state.lock().unwrap().chains.get(&client_id).map(|c| c.versions.len()).unwrap_or(0);
+            if nver >= 1 {
+                let tampers = [Tamper::FlipBit(c.tamper as usize * 13), Tamper::WrongParentHeader, Tamper::SwapBody];
+                for t in tampers {
+                    if t == Tamper::SwapBody && nver < 2 {
+                        continue;
+                    }
+                    http.state.lock().unwrap().tamper = t.clone();
+                    let mut fresh = mk()?;
+                    let r = block_on(fresh.get_child_version(Uuid::nil()));
+                    crate::ensure!(
+                        r.is_err(),
+                        "stored-tamper-accepted",
+                        "with the reply tampered ({t:?}) get_child_version returned {r:?} instead of an error"
+                    );
+                    rep.class("tampered-http-reply-rejected");
+                }
+                http.state.lock().unwrap().tamper = Tamper::None;
+            }
+        }
         _ => {
             rep.class("git-local-only");
             let dir = tempfile::TempDir::new().map_err(|e| Failure::new("infra", format!("{e}")))?;
@@ -512,6 +579,12 @@ pub fn check_stored(c: &StoredCase) -> CheckResult {
                 let pos = (c.tamper as usize * 7) % v.len();
                 v[pos] ^= 0x40;
                 std::fs::write(&p, &v).unwrap();
+                // the stored form is what is committed: commit the modification (a checkout
+                // that merely differs from HEAD is restored when the repository is opened)
+                for args in [vec!["add", name.as_str()], vec!["-c", "user.email=t@local", "-c", "user.name=t", "commit", "-q", "-m", "tampered"]] {
+                    let out = std::process::Command::new("git").args(&args).current_dir(&path).output().map_err(|e| Failure::new("infra", format!("git: {e}")))?;
+                    crate::ensure!(out.status.success(), "infra", "git {args:?} failed: {}", String::from_utf8_lossy(&out.stderr));
+                }
                 let mut fresh = mk()?;
                 let r = block_on(fresh.get_child_version(parent));
                 crate::ensure!(
@@ -533,7 +606,6 @@ pub fn run(e: &Engine) {
         std::process::exit(2)
     });
     e.assume("the oracle is an independent implementation of PBKDF2-HMAC-SHA256 / ChaCha20-Poly1305 (RFC 8439) written in the harness and self-tested against the RFC vectors at start-up");
-    e.assume("the HTTP backend's request bodies are checked in C08's HTTP campaign with the same independent implementation");
     e.campaign(
         "seal-unseal-tamper",
         "per case one (secret 0-63 bytes, salt) key derivation and 8 sealed values (version id, payload 0 B-70 kB, foreign nonce): differential against the independent implementation in both directions, nonce uniqueness, then EVERY byte position x {xor 1, 0x80, 0xff}, EVERY truncation, extensions, every single-bit change of the version id, foreign application id, other secret, other salt must all be rejected (positions sampled for payloads > 430 bytes); evaluations count tamper attempts",
@@ -544,8 +616,8 @@ pub fn run(e: &Engine) {
     );
     e.campaign(
         "stored-form",
-        "two replicas with marker strings in every value sync through the object-store server (key derived from the stored random salt) or the git server; every stored version/snapshot must open with the independent implementation bound to its own version id, no marker may occur in anything stored, and a flipped bit or swapped object must make the Server call fail; non-trivial = at least one stored version checked",
-        e.tier.pick(24, 400),
+        "two replicas with marker strings in every value sync through the object-store server (key derived from the stored random salt), the git server, or the HTTP client against the harness's protocol server (salt = client id, versions bound to the parent id, snapshots to their own); every stored version/snapshot must open with the independent implementation bound to its own version id, no marker may occur in anything stored, and a flipped bit or swapped object must make the Server call fail; non-trivial = at least one stored version checked",
+        e.tier.pick(36, 600),
         stored_strategy,
         |c| serde_json::to_value(c).unwrap(),
         check_stored,
